@@ -305,6 +305,10 @@ def run_direct(case):
     return out
 
 
+def index_of(case):
+    return int(case.get('index') or 0)
+
+
 def run_case(case):
     if case['kind'] == 'direct':
         return run_direct(case)
@@ -405,6 +409,19 @@ def run_case(case):
         if want_line not in rl.outtext():
             viol('trash-list-does-not-show-path', want=want_line,
                  got=rl.outtext()[-500:], err=rl.errtext()[-300:])
+        if largs:
+            # the same trash directory named after others (one of them twice,
+            # on another volume): it keeps its own base directory
+            others = [w.abs(m) for m in (w.desc.get('mounts') or [''])
+                      if w.abs(m) != vol.rstrip('/')] or [w.R]
+            x = others[index_of(case) % len(others)] + '/no-such-trash-dir'
+            rl2 = run.run(w, 'list', ['--trash-dir', x, '--trash-dir', x + '/']
+                          + largs, stdin=b'', contracts=ALLC)
+            obs['listed_after_other_trash_dirs'] = 1
+            if want_line not in rl2.outtext():
+                viol('trash-list-does-not-show-path/several-trash-dirs',
+                     want=want_line, got=rl2.outtext()[-500:],
+                     err=rl2.errtext()[-300:])
         rr = run.run(w, 'restore', largs, stdin=b'', cwd=w.R, contracts=ALLC)
         lst = trashio.parse_restore_listing(rr.outtext())
         if not any(p == want_loc and d == date_txt for i, d, p in lst):
